@@ -353,3 +353,57 @@ Lemma hist_sizes_outputs :
    OUnit; OLen 2; OItems [5; 7]%Z None; OUnit] /\
   snd (spec_run (abs empty_world) hist_sizes) = snd (run fixed_cfg empty_world hist_sizes).
 Proof. split; [apply hist_okb_sound; vm_compute; reflexivity|]. vm_compute. split; reflexivity. Qed.
+
+(* ------------------------------------------------------------------------------------------- *)
+(* iterators: independent cursors                                                              *)
+(* ------------------------------------------------------------------------------------------- *)
+Definition cursor (s : sworld) (k : nat) : option nat :=
+  match s_h s with Some h => @alookup nat nat Nat.eqb k (sh_iters h) | None => None end.
+
+Lemma spec_iter_next s h k cur : s_h s = Some h -> @alookup nat nat Nat.eqb k (sh_iters h) = Some cur ->
+  snd (spec_step s (IterNext k)) = match nth_error (s_items s h) cur with Some (t, _) => OItem t | None => OStop end /\
+  cursor (fst (spec_step s (IterNext k))) k
+  = Some (match nth_error (s_items s h) cur with Some _ => S cur | None => cur end).
+Proof.
+  intros E L. unfold spec_step. rewrite E, L. unfold cursor.
+  destruct (nth_error (s_items s h) cur) as [[t f]|]; cbn; [|now rewrite E].
+  split; auto. apply (alookup_aupd_eq Nat.eqb nat_eqb_eq).
+Qed.
+
+(* advancing (or restarting) one iterator leaves the cursor of every other iterator, and the list, alone *)
+Theorem iterators_independent s h k k' : s_h s = Some h -> k <> k' ->
+  (cursor (fst (spec_step s (IterNext k))) k' = cursor s k' /\
+   cursor (fst (spec_step s (IterNew k))) k' = cursor s k') /\
+  (forall h1, s_h (fst (spec_step s (IterNext k))) = Some h1 -> s_items (fst (spec_step s (IterNext k))) h1 = s_items s h).
+Proof.
+  intros E N.
+  assert (A : forall v, @alookup nat nat Nat.eqb k' (aupd Nat.eqb k v (sh_iters h)) = alookup Nat.eqb k' (sh_iters h))
+    by (intros v; now apply (alookup_aupd_neq Nat.eqb nat_eqb_eq)).
+  split; [split|].
+  - unfold spec_step, cursor. rewrite E.
+    destruct (alookup Nat.eqb k (sh_iters h)) as [cur|]; [|cbn; now rewrite E].
+    destruct (nth_error (s_items s h) cur) as [[t f]|]; cbn; [apply A|now rewrite E].
+  - unfold spec_step, cursor. rewrite E. cbn. apply A.
+  - unfold spec_step. rewrite E.
+    destruct (alookup Nat.eqb k (sh_iters h)) as [cur|]; [|cbn; intros h1 H1; rewrite E in H1; now injection H1 as <-].
+    destruct (nth_error (s_items s h) cur) as [[t f]|]; cbn; intros h1 H1.
+    + injection H1 as <-. reflexivity.
+    + rewrite E in H1. now injection H1 as <-.
+Qed.
+
+(* zip(store, store), a nested loop, a restart half-way, an addition under way *)
+Definition hist_iters : list op :=
+  [Create P0 None; Add (TJ 0 None); Add (TJ 1 None); Add (TJ 2 None);
+   IterNew 0; IterNew 1; IterNext 0; IterNext 1; IterNext 0; IterNext 1; IterNext 0; IterNext 1; IterNext 0; IterNext 1;
+   IterNew 0; IterNext 0; IterNew 1; IterNext 1; IterNext 1; IterNext 1; IterNext 1; IterNext 0;
+   IterNew 2; IterNext 2; IterNew 2; IterNext 2; Add (TJ 3 None); Evict []; IterNext 0; IterNext 0; IterNext 0; Close].
+
+Lemma hist_iters_outputs :
+  hist_ok (abs empty_world) hist_iters /\
+  snd (run fixed_cfg empty_world hist_iters) =
+  [OUnit; OIdx 0; OIdx 1; OIdx 2;
+   OUnit; OUnit; OItem 0; OItem 0; OItem 1; OItem 1; OItem 2; OItem 2; OStop; OStop;
+   OUnit; OItem 0; OUnit; OItem 0; OItem 1; OItem 2; OStop; OItem 1;
+   OUnit; OItem 0; OUnit; OItem 0; OIdx 3; OUnit; OItem 2; OItem 3; OStop; OUnit] /\
+  snd (spec_run (abs empty_world) hist_iters) = snd (run fixed_cfg empty_world hist_iters).
+Proof. split; [apply hist_okb_sound; vm_compute; reflexivity|]. vm_compute. split; reflexivity. Qed.
